@@ -44,6 +44,7 @@ type invocation struct {
 type scase struct {
 	Fault string       `json:"fault"`
 	Invs  []invocation `json:"invs"`
+	Init  int          `json:"init"` // datapoints accepted during the init phase
 }
 
 // evlog orders the observations of one extension instance
@@ -63,11 +64,12 @@ func (l *evlog) emit(ev string, kv ...any) {
 }
 
 type world struct {
-	log    *evlog
-	nextCh chan chan string
-	mu     sync.Mutex
-	mode   string // what the upstream does with requests that carry datapoints
-	tries  int    // attempts seen in this mode
+	log           *evlog
+	nextCh        chan chan string
+	mu            sync.Mutex
+	mode          string        // what the upstream does with requests that carry datapoints
+	tries         int           // attempts seen in this mode
+	holdSubscribe chan struct{} // non-nil: the runtime answers the telemetry subscription only when this is closed (a long init phase)
 }
 
 var recordType = map[string]string{"done": "platform.runtimeDone", "start": "platform.start", "report": "platform.report",
@@ -84,6 +86,12 @@ func (w *world) runtimeAPI() http.Handler {
 	})
 	mux.HandleFunc("/2022-07-01/telemetry", func(rw http.ResponseWriter, r *http.Request) {
 		w.log.emit("subscribe")
+		if w.holdSubscribe != nil {
+			select {
+			case <-w.holdSubscribe:
+			case <-r.Context().Done():
+			}
+		}
 		rw.WriteHeader(200)
 	})
 	mux.HandleFunc("/2020-01-01/extension/event/next", func(rw http.ResponseWriter, r *http.Request) {
@@ -183,6 +191,9 @@ var errMachinery = fmt.Errorf("machinery")
 // runCase returns the observations, or errMachinery when the environment (ports) got in the way
 func runCase(c *scase, idx int) ([]map[string]any, error) {
 	w := &world{log: &evlog{}, nextCh: make(chan chan string, 4), mode: "ok"}
+	if c.Init > 0 && c.Fault == "none" {
+		w.holdSubscribe = make(chan struct{})
+	}
 	rt := httptest.NewServer(w.runtimeAPI())
 	defer rt.Close()
 	up := httptest.NewServer(w.upstream())
@@ -272,6 +283,20 @@ func runCase(c *scase, idx int) ([]map[string]any, error) {
 			time.Sleep(50 * time.Millisecond)
 		}
 		return last
+	}
+	if w.holdSubscribe != nil {
+		// the init phase: the server is up (or coming up) while the runtime has not yet answered the telemetry subscription; what is
+		// accepted now is due with the extension's initial flush, i.e. before its first request for an invocation
+		for k := 0; k < c.Init; k++ {
+			d := fmt.Sprintf("dp.%d.init.%d", idx, k)
+			if err := post(d); err != nil {
+				cancel()
+				return nil, errMachinery
+			}
+			w.log.emit("accept", "d", d)
+		}
+		w.log.emit("init_mark")
+		close(w.holdSubscribe)
 	}
 	for i, inv := range c.Invs {
 		reply := waitNext()
@@ -397,6 +422,9 @@ func TestHistories(t *testing.T) {
 				}
 			}
 			res.Hit("fault:" + c.Fault)
+			if c.Init > 0 {
+				res.Hit("init-datapoints")
+			}
 			for _, inv := range c.Invs {
 				res.Hit("up:" + inv.Up)
 				if len(inv.Shape) > 1 || len(inv.Shape[0]) > 1 {
